@@ -49,7 +49,7 @@ def good (c : Cfg) : Bool :=
 
 inductive Err
   | noValidator | noDelegation | recvRedel | insufficient | allowance | badArgs
-  | missingRecord      -- historical record read while absent (reference count 0)
+  | refUnderflow       -- "cannot set negative reference count" (decrement of an absent record)
   | refOver            -- "reference count should never exceed 2"
   | negRewards         -- "negative rewards should not be possible"
   | periodOrder        -- "startingPeriod cannot be greater than endingPeriod"
@@ -61,7 +61,7 @@ deriving Repr, DecidableEq, Inhabited
 
 /-- failures of the hand-edited / F1 bookkeeping (never acceptable) as opposed to ordinary refusals -/
 def Err.bookkeeping : Err → Bool
-  | .missingRecord | .refOver | .negRewards | .periodOrder | .noStartInfo | .negShares => true
+  | .refUnderflow | .refOver | .negRewards | .periodOrder | .noStartInfo | .negShares => true
   | _ => false
 
 structure SInfo where
@@ -102,16 +102,20 @@ def VS.tokensFromSharesTrunc (v : VS) (sh : Nat) : Nat := dQuoTrunc (sh * v.toke
 def VS.sharesFromTokens (v : VS) (amt : Nat) : Nat := v.shares * amt / v.tokens
 def VS.sharesFromTokensTrunc (v : VS) (amt : Nat) : Nat := dQuoTrunc (v.shares * amt) (v.tokens * ONE)
 
-/-- distribution `decrementReferenceCount` (delete when zero = count 0) -/
+/-- `GetValidatorHistoricalRewards(…).CumulativeRewardRatio`: in this SDK version reading an absent record gives
+the zero record, not an error -/
+def VS.ratioAt (v : VS) (p : Nat) : Nat := if v.refs p = 0 then 0 else v.ratio p
+
+/-- distribution `decrementReferenceCount` (delete when zero = count 0); an absent record reads as count 0 and
+panics -/
 def VS.decRef (v : VS) (p : Nat) : Except Err VS :=
-  if v.refs p = 0 then .error .missingRecord
+  if v.refs p = 0 then .error .refUnderflow
   else .ok { v with refs := setAt v.refs p (v.refs p - 1) }
 
-/-- distribution `incrementReferenceCount` -/
+/-- distribution `incrementReferenceCount`; on an absent record it silently creates one with a zero ratio -/
 def VS.incRef (v : VS) (p : Nat) : Except Err VS :=
-  if v.refs p = 0 then .error .missingRecord
-  else if 2 < v.refs p then .error .refOver
-  else .ok { v with refs := setAt v.refs p (v.refs p + 1) }
+  if 2 < v.refs p then .error .refOver
+  else .ok { v with refs := setAt v.refs p (v.refs p + 1), ratio := setAt v.ratio p (v.ratioAt p) }
 
 /-- `IncrementValidatorPeriod(ctx, val)`; `tokens` are those of the validator object handed in; returns the
 period just ended -/
@@ -119,8 +123,7 @@ def VS.incPeriod (v : VS) (tokens : Nat) : Except Err (VS × Nat) :=
   let (v0, current) :=
     if tokens = 0 then ({ v with dust := v.dust + v.cur, outstanding := v.outstanding - v.cur }, 0)
     else (v, dQuoTrunc v.cur (tokens * ONE))
-  if v0.refs (v0.period - 1) = 0 then .error .missingRecord else
-  let cum := v0.ratio (v0.period - 1)
+  let cum := v0.ratioAt (v0.period - 1)
   match v0.decRef (v0.period - 1) with
   | .error e => .error e
   | .ok v1 =>
@@ -130,10 +133,8 @@ def VS.incPeriod (v : VS) (tokens : Nat) : Except Err (VS × Nat) :=
 /-- `calculateDelegationRewardsBetween` -/
 def VS.between (v : VS) (sp ep stake : Nat) : Except Err Nat :=
   if ep < sp then .error .periodOrder
-  else if v.refs sp = 0 then .error .missingRecord
-  else if v.refs ep = 0 then .error .missingRecord
-  else if v.ratio ep < v.ratio sp then .error .negRewards
-  else .ok (dMulTrunc (v.ratio ep - v.ratio sp) stake)
+  else if v.ratioAt ep < v.ratioAt sp then .error .negRewards
+  else .ok (dMulTrunc (v.ratioAt ep - v.ratioAt sp) stake)
 
 /-- the slash-event loop of `CalculateDelegationRewards`: (rewards, startingPeriod, stake) -/
 def VS.slashLoop (v : VS) : List SlashEv → Nat → Nat → Nat → Except Err (Nat × Nat × Nat)
@@ -300,9 +301,9 @@ def VS.transfer (c : Cfg) (v : VS) (h from_ to x : Nat) (recv : Bool) : Except E
       match step2 with
       | .error e => .error e
       | .ok (v2, rt) =>
-        match v2.sinfo from_ with
-        | none => .error .noStartInfo
-        | some fsi =>
+        -- `GetDelegatorStartingInfo` of an absent key yields the zero value, not an error
+        match (v2.sinfo from_).getD ⟨0, 0, 0⟩ with
+        | fsi =>
           if fsh < X then .error .negShares else
           let step3 : Except Err VS :=
             if fsh - X = 0 then
@@ -326,9 +327,8 @@ def VS.transfer (c : Cfg) (v : VS) (h from_ to x : Nat) (recv : Bool) : Except E
               | .error e => .error e
               | .ok v5 => .ok ({ v5 with sinfo := setAt v5.sinfo to (some ⟨p, v.tokensFromSharesTrunc X, h⟩) }, rf, rt)
             | some _ =>
-              match v4.sinfo to with
-              | none => .error .noStartInfo
-              | some tsi =>
+              match (v4.sinfo to).getD ⟨0, 0, 0⟩ with
+              | tsi =>
                 .ok ({ v4 with sinfo := setAt v4.sinfo to (some { tsi with stake := v.tokensFromSharesTrunc tsh }) }, rf, rt)
 
 -- ---------------------------------------------------------------------------------------------------------------
